@@ -1,4 +1,5 @@
 import RossModel.Lemmas.Builder
+import RossModel.Lemmas.Accept
 /-!
 # C07 — Reassembly accepts only the exact next frame of the same packet
 
@@ -53,5 +54,10 @@ theorem C07_build_spec (b : Builder) (hw : ∀ f ∈ b.frames, f.dataLen ≤ f.d
 
 theorem C07_offer_inv (b : Builder) (hb : b.Inv) (fs : List Frame) : (fs.foldl Builder.offer b).Inv :=
   Ross.offer_inv b hb fs
+
+/-- the executable predicate with which the driver validates the rejection reason reported by the real
+`PacketBuilder` decides exactly `Applies` -/
+theorem C07_appliesB_iff (r : BErr) (b : Builder) (f : Frame) : appliesB r b f = true ↔ Applies r b f :=
+  Ross.appliesB_iff r b f
 
 end Ross.Props
